@@ -2,7 +2,7 @@
     Model: Store/FinalizeDefs.v (isBlockOutdated, finalizeBlocks, finalizeBlockImpl incl. fix 057feaed,
     the TIP_IS_FINAL short-cuts of comparePopScore, setState with assertBlockCanBeUnapplied). *)
 From Coq Require Import NArith List Bool.
-From VB Require Import Store.FinalizeDefs Store.FinalizeProofs Store.FinalizeTheorems Store.FinalizeOutdated Store.FinalizeTips.
+From VB Require Import Store.FinalizeDefs Store.FinalizeProofs Store.FinalizeTheorems Store.FinalizeOutdated Store.FinalizeTips Store.FinalizeWindow.
 Import ListNotations.
 Local Open Scope N_scope.
 
@@ -108,3 +108,25 @@ Theorem C09_tips_dirty_fork_erased_refuted :
   ~ In 16 (t_tips t') /\ In 13 (t_tips t').
 Proof. exact tips_dirty_fork_erased_refuted. Qed.
 Print Assumptions C09_tips_dirty_fork_erased_refuted.
+
+(* preserved window: every block of the active chain at or above max(old root, final - preserve) - the final block,
+   the `preserve` blocks below it and the chain above it - is retained with unchanged height, payload ids, dirty
+   bit and parent (the new root loses its parent) and stays on the active chain *)
+Theorem C09_preserved_window :
+  forall fuel t idx preserve,
+  wf_tree t -> chain_is_path t ->
+  (forall id b, flookup (t_blocks t) id = Some b -> (N.to_nat (f_height b) <= fuel)%nat) ->
+  (idx =? root_of t) = false ->
+  forall tips' fin newRoot,
+  erase_tips fuel t (t_tips t) (lowest_dirty fuel t idx idx) = (tips', fin) ->
+  In fin (t_chain t) ->
+  chain_at t (N.max (height_of t (root_of t)) (height_of t fin - preserve)) = Some newRoot ->
+  forall c b,
+  In c (t_chain t) -> flookup (t_blocks t) c = Some b ->
+  N.max (height_of t (root_of t)) (height_of t fin - preserve) <= height_of t c ->
+  exists b', flookup (t_blocks (finalizeBlockImpl fuel t idx preserve)) c = Some b' /\
+             f_height b' = f_height b /\ f_pl b' = f_pl b /\ f_dirty b' = f_dirty b /\
+             (c <> newRoot -> f_parent b' = f_parent b) /\
+             In c (t_chain (finalizeBlockImpl fuel t idx preserve)).
+Proof. exact preserved_window. Qed.
+Print Assumptions C09_preserved_window.
